@@ -1131,6 +1131,8 @@ func c01Configs(thorough bool) []c01Cfg {
 		{N: 5, T: 2, Corrupt: []int{2, 4}, Plan: map[string]string{"m4.commitment": "inconsistentSharesFor2", "m2.commitmentsVerification": "falselyAccuse1"}},
 		// both fall silent after qualification: two individual keys must be reconstructed
 		{N: 5, T: 2, Corrupt: []int{2, 4}, Plan: map[string]string{"m2.pointsShare": "silent", "m4.pointsShare": "silent"}},
+		// each reveals, in phase 10, the ephemeral key of the other (still operating) one
+		{N: 5, T: 2, Corrupt: []int{1, 2}, Plan: map[string]string{"m1.keyReveal": "revealKeyOf2", "m2.keyReveal": "revealKeyOf1"}},
 		// selective points from 2, silent accuser 4
 		{N: 5, T: 2, Corrupt: []int{2, 4}, Plan: map[string]string{"m2.pointsShare": "pointsValidOnlyFor[1 3]", "m4.pointsValidation": "silent"}},
 	}
